@@ -228,7 +228,7 @@ impl Prop for C16 {
         Describe {
             level: "exploration",
             rule: "each case = one seeded run of 3-6 complete litep2p nodes running Kademlia on SimNet (line / star / clique bootstrap, replication factor knob) plus ghost peers (refusing address, black-hole address, address no transport can dial, no address): in a third of the runs ghost n+1 is a live peer that speaks the Kademlia protocol name but, after reading a request, stays silent / closes / answers garbage, an empty frame or a well-formed message of the wrong type; materialised user operations (find_node, put_record with each quorum, put_record_to_peers incl. ghosts, get_record, start_providing, get_providers), fault plan (resets, half-closes, byte-offset cuts and single-bit corruption in flight, partitions, refused / black-holed / slow connects, node kill with reset or silent vanish, crash + restart with the same identity, process stalls), scheduler kind and knobs; non-trivial = scheduler had >=1 choice point; distinct = distinct trace hash".into(),
-            real: vec!["Litep2p", "TransportManager", "TcpTransport", "Noise", "yamux", "Kademlia (event loop, QueryEngine, RoutingTable, MemoryStore, QueryExecutor)", "KademliaHandle", "TransportService"],
+            real: vec!["Litep2p", "TransportManager", "TcpTransport", "WebSocketTransport/WebSocketConnection + tokio-tungstenite (runs with the second transport)", "Noise", "yamux", "Kademlia (event loop, QueryEngine, RoutingTable, MemoryStore, QueryExecutor)", "KademliaHandle", "TransportService"],
             stub: vec!["socket layer (SimNet)", "clock", "task scheduler (seeded)", "HashMap seeds"],
             assumptions: vec![
                 "liveness is checked at the horizon: last operation/fault + 240 simulated seconds (every dial, substream, read/write and per-peer time-out of the code fits several times)",
